@@ -1,115 +1,211 @@
 (* Properties_C07 — usage flags, key class/type and mechanism restrictions at operation start.
-   Theorems over the REGENERATED guard prefixes of the entry points (gen/Gen_Entry.v, translated from SoftHSM.cpp on
-   every run).  `zz_rest` := SENTINEL (2^64, not a CK_RV) stands for "the body after the guards is reached": every
-   statement says what must hold of the key, the session and the mechanism for that to happen.
-   `imp key pM` is SoftHSM::isMechanismPermitted (advertised list and CKA_ALLOWED_MECHANISMS); `find b e mech <> e`
-   is std::find over supportedMechanisms not returning end().  Statements only. *)
+   Theorems over the REGENERATED translation of the entry points (gen/Gen_Entry.v, from SoftHSM.cpp on every run; one
+   record `env` of named parameters per function: uninterpreted callees, members read, values produced by helper
+   functions).  `zz_rest e = SENTINEL` (2^64, not a CK_RV) stands for "the part that sets up the session's operation is
+   reached"; for functions translated to the end the workers are instantiated with SENTINEL.  Every statement says what
+   must hold of the key, the session and the mechanism for that to happen: usage attribute, isMechanismPermitted
+   (advertised list and CKA_ALLOWED_MECHANISMS), access, no active operation, and that the key's class / type fits the
+   mechanism (the tables mac_fits, sym_fits, rsa_crypt_fits, sign_fits, verify_fits of EntryFacts.v).  Statements only. *)
 From Coq Require Import List NArith Bool.
 From SoftHSM Require Import Gen_Const Gen_Entry EntryFacts.
 Local Open Scope N_scope.
 
-Section KeyedInit.
-  Variables (go gs : N -> N) (hr : N -> N -> N -> N) (imp : N -> N -> bool) (kgb : N -> bool -> bool) (kgu : N -> N -> N)
-            (kiv : bool) (sot sst stok ini hS pM hK : N).
-  Hypothesis Hb : bounded hr.
-  Let acc := hr sst (if kgb CKA_TOKEN false then 1 else 0) (if kgb CKA_PRIVATE true then 1 else 0).
-
-  Theorem C07_SymEncryptInit :
-    gen_SoftHSM__SymEncryptInit go gs hr imp kgb kgu kiv sot sst stok ini SENTINEL hS pM hK = SENTINEL ->
-    pM <> 0 /\ init_ok ini (gs hS) sot stok (go hK) kiv acc (kgb CKA_ENCRYPT false) (imp (go hK) pM).
-  Proof. exact (SymEncryptInit_guards go gs hr imp kgb kgu kiv sot sst stok ini hS pM hK Hb). Qed.
-  Theorem C07_SymDecryptInit :
-    gen_SoftHSM__SymDecryptInit go gs hr imp kgb kgu kiv sot sst stok ini SENTINEL hS pM hK = SENTINEL ->
-    pM <> 0 /\ init_ok ini (gs hS) sot stok (go hK) kiv acc (kgb CKA_DECRYPT false) (imp (go hK) pM).
-  Proof. exact (SymDecryptInit_guards go gs hr imp kgb kgu kiv sot sst stok ini hS pM hK Hb). Qed.
-  Theorem C07_AsymDecryptInit :
-    gen_SoftHSM__AsymDecryptInit go gs hr imp kgb kgu kiv sot sst stok ini SENTINEL hS pM hK = SENTINEL ->
-    pM <> 0 /\ init_ok ini (gs hS) sot stok (go hK) kiv acc (kgb CKA_DECRYPT false) (imp (go hK) pM).
-  Proof. exact (AsymDecryptInit_guards go gs hr imp kgb kgu kiv sot sst stok ini hS pM hK Hb). Qed.
-  Theorem C07_MacSignInit :
-    gen_SoftHSM__MacSignInit go gs hr imp kgb kgu kiv sot sst stok ini SENTINEL hS pM hK = SENTINEL ->
-    pM <> 0 /\ init_ok ini (gs hS) sot stok (go hK) kiv acc (kgb CKA_SIGN false) (imp (go hK) pM).
-  Proof. exact (MacSignInit_guards go gs hr imp kgb kgu kiv sot sst stok ini hS pM hK Hb). Qed.
-  Theorem C07_MacVerifyInit :
-    gen_SoftHSM__MacVerifyInit go gs hr imp kgb kgu kiv sot sst stok ini SENTINEL hS pM hK = SENTINEL ->
-    pM <> 0 /\ init_ok ini (gs hS) sot stok (go hK) kiv acc (kgb CKA_VERIFY false) (imp (go hK) pM).
-  Proof. exact (MacVerifyInit_guards go gs hr imp kgb kgu kiv sot sst stok ini hS pM hK Hb). Qed.
-  Theorem C07_AsymSignInit :
-    gen_SoftHSM__AsymSignInit go gs hr imp kgb kiv sot sst stok ini SENTINEL hS pM hK = SENTINEL ->
-    pM <> 0 /\ init_ok ini (gs hS) sot stok (go hK) kiv acc (kgb CKA_SIGN false) (imp (go hK) pM).
-  Proof. exact (AsymSignInit_guards go gs hr imp kgb kiv sot sst stok ini hS pM hK Hb). Qed.
-  Theorem C07_AsymVerifyInit :
-    gen_SoftHSM__AsymVerifyInit go gs hr imp kgb kiv sot sst stok ini SENTINEL hS pM hK = SENTINEL ->
-    pM <> 0 /\ init_ok ini (gs hS) sot stok (go hK) kiv acc (kgb CKA_VERIFY false) (imp (go hK) pM).
-  Proof. exact (AsymVerifyInit_guards go gs hr imp kgb kiv sot sst stok ini hS pM hK Hb). Qed.
-  Theorem C07_AsymEncryptInit (oaep : N -> N) (mech : N) :
-    bounded1 oaep ->
-    gen_SoftHSM__AsymEncryptInit oaep go gs hr imp kgb kgu kiv mech sot sst stok ini SENTINEL hS pM hK = SENTINEL ->
-    pM <> 0 /\ init_ok ini (gs hS) sot stok (go hK) kiv acc (kgb CKA_ENCRYPT false) (imp (go hK) pM).
-  Proof. exact (AsymEncryptInit_guards go gs hr imp kgb kgu kiv sot sst stok ini hS pM hK Hb oaep mech). Qed.
-End KeyedInit.
+Theorem C07_SymEncryptInit : forall (e : SymEncryptInit.env),
+  bounded (SymEncryptInit.haveRead e) -> SymEncryptInit.zz_rest e = SENTINEL ->
+  SymEncryptInit.app e = SENTINEL ->
+  let key := SymEncryptInit.handleManager_getObject e (SymEncryptInit.hKey e) in
+  let kgb := SymEncryptInit.key_getBooleanValue e in
+  SymEncryptInit.pMechanism e <> 0 /\
+  init_ok (SymEncryptInit.this_isInitialised e) (SymEncryptInit.handleManager_getSession e (SymEncryptInit.hSession e)) (SymEncryptInit.session_getOpType e)
+          (SymEncryptInit.session_getToken e) key (SymEncryptInit.key_isValid e)
+          (SymEncryptInit.haveRead e (SymEncryptInit.session_getState e) (if kgb CKA_TOKEN false then 1 else 0) (if kgb CKA_PRIVATE true then 1 else 0))
+          (kgb CKA_ENCRYPT false) (SymEncryptInit.isMechanismPermitted e key (SymEncryptInit.pMechanism e)) /\
+  sym_fits (SymEncryptInit.pMechanism_mechanism e) (SymEncryptInit.key_getUnsignedLongValue e CKA_KEY_TYPE CKK_VENDOR_DEFINED) = true.
+Proof. exact SymEncryptInit_guards. Qed.
 Print Assumptions C07_SymEncryptInit.
+
+Theorem C07_SymDecryptInit : forall (e : SymDecryptInit.env),
+  bounded (SymDecryptInit.haveRead e) -> SymDecryptInit.zz_rest e = SENTINEL ->
+  SymDecryptInit.app e = SENTINEL ->
+  let key := SymDecryptInit.handleManager_getObject e (SymDecryptInit.hKey e) in
+  let kgb := SymDecryptInit.key_getBooleanValue e in
+  SymDecryptInit.pMechanism e <> 0 /\
+  init_ok (SymDecryptInit.this_isInitialised e) (SymDecryptInit.handleManager_getSession e (SymDecryptInit.hSession e)) (SymDecryptInit.session_getOpType e)
+          (SymDecryptInit.session_getToken e) key (SymDecryptInit.key_isValid e)
+          (SymDecryptInit.haveRead e (SymDecryptInit.session_getState e) (if kgb CKA_TOKEN false then 1 else 0) (if kgb CKA_PRIVATE true then 1 else 0))
+          (kgb CKA_DECRYPT false) (SymDecryptInit.isMechanismPermitted e key (SymDecryptInit.pMechanism e)) /\
+  sym_fits (SymDecryptInit.pMechanism_mechanism e) (SymDecryptInit.key_getUnsignedLongValue e CKA_KEY_TYPE CKK_VENDOR_DEFINED) = true.
+Proof. exact SymDecryptInit_guards. Qed.
 Print Assumptions C07_SymDecryptInit.
-Print Assumptions C07_AsymDecryptInit.
-Print Assumptions C07_MacSignInit.
-Print Assumptions C07_MacVerifyInit.
-Print Assumptions C07_AsymSignInit.
-Print Assumptions C07_AsymVerifyInit.
+
+Theorem C07_AsymEncryptInit : forall (e : AsymEncryptInit.env),
+  bounded (AsymEncryptInit.haveRead e) -> AsymEncryptInit.zz_rest e = SENTINEL ->
+  bounded1 (AsymEncryptInit.MechParamCheckRSAPKCSOAEP e) ->
+  AsymEncryptInit.app e = SENTINEL ->
+  let key := AsymEncryptInit.handleManager_getObject e (AsymEncryptInit.hKey e) in
+  let kgb := AsymEncryptInit.key_getBooleanValue e in
+  AsymEncryptInit.pMechanism e <> 0 /\
+  init_ok (AsymEncryptInit.this_isInitialised e) (AsymEncryptInit.handleManager_getSession e (AsymEncryptInit.hSession e)) (AsymEncryptInit.session_getOpType e)
+          (AsymEncryptInit.session_getToken e) key (AsymEncryptInit.key_isValid e)
+          (AsymEncryptInit.haveRead e (AsymEncryptInit.session_getState e) (if kgb CKA_TOKEN false then 1 else 0) (if kgb CKA_PRIVATE true then 1 else 0))
+          (kgb CKA_ENCRYPT false) (AsymEncryptInit.isMechanismPermitted e key (AsymEncryptInit.pMechanism e)) /\
+  rsa_crypt_fits (AsymEncryptInit.pMechanism_mechanism e) (AsymEncryptInit.key_getUnsignedLongValue e CKA_KEY_TYPE CKK_VENDOR_DEFINED) = true.
+Proof. exact AsymEncryptInit_guards. Qed.
 Print Assumptions C07_AsymEncryptInit.
 
-Theorem C07_WrapKey :
-  forall (oaep : N -> N) (aima : N) (go gs : N -> N) (hr : N -> N -> N -> N) (imp : N -> N -> bool)
-         (kgb : N -> bool -> bool) (kgu : N -> N -> N) (kiv : bool) (mech mpar mparlen sst stok ini : N)
-         (wae wga : N -> N) (wgb : N -> bool -> bool) (wgu : N -> N -> N) (wiv : bool) (hS pM hW hK pW pL : N),
-    bounded hr -> bounded1 oaep ->
-    gen_SoftHSM__C_WrapKey oaep aima go gs hr imp kgb kgu kiv mech mpar mparlen sst stok ini wae wga wgb wgu wiv SENTINEL hS pM hW hK pW pL = SENTINEL ->
-    kgb CKA_EXTRACTABLE false = true /\
-    (kgb CKA_WRAP_WITH_TRUSTED false = true -> wgb CKA_TRUSTED false = true) /\
-    wgb CKA_WRAP false = true /\ imp (go hW) pM = true /\
-    hr sst (if wgb CKA_TOKEN false then 1 else 0) (if wgb CKA_PRIVATE true then 1 else 0) = CKR_OK /\
-    hr sst (if kgb CKA_TOKEN false then 1 else 0) (if kgb CKA_PRIVATE true then 1 else 0) = CKR_OK /\
-    ((mech = CKM_AES_KEY_WRAP \/ mech = CKM_AES_KEY_WRAP_PAD) -> wgu CKA_CLASS CKO_VENDOR_DEFINED = CKO_SECRET_KEY /\ wgu CKA_KEY_TYPE CKK_VENDOR_DEFINED = CKK_AES) /\
-    ((mech = CKM_RSA_PKCS \/ mech = CKM_RSA_PKCS_OAEP) -> wgu CKA_CLASS CKO_VENDOR_DEFINED = CKO_PUBLIC_KEY /\ wgu CKA_KEY_TYPE CKK_VENDOR_DEFINED = CKK_RSA).
+Theorem C07_AsymDecryptInit : forall (e : AsymDecryptInit.env),
+  bounded (AsymDecryptInit.haveRead e) -> AsymDecryptInit.zz_rest e = SENTINEL ->
+  AsymDecryptInit.app e = SENTINEL ->
+  let key := AsymDecryptInit.handleManager_getObject e (AsymDecryptInit.hKey e) in
+  let kgb := AsymDecryptInit.key_getBooleanValue e in
+  AsymDecryptInit.pMechanism e <> 0 /\
+  init_ok (AsymDecryptInit.this_isInitialised e) (AsymDecryptInit.handleManager_getSession e (AsymDecryptInit.hSession e)) (AsymDecryptInit.session_getOpType e)
+          (AsymDecryptInit.session_getToken e) key (AsymDecryptInit.key_isValid e)
+          (AsymDecryptInit.haveRead e (AsymDecryptInit.session_getState e) (if kgb CKA_TOKEN false then 1 else 0) (if kgb CKA_PRIVATE true then 1 else 0))
+          (kgb CKA_DECRYPT false) (AsymDecryptInit.isMechanismPermitted e key (AsymDecryptInit.pMechanism e)) /\
+  rsa_crypt_fits (AsymDecryptInit.pMechanism_mechanism e) (AsymDecryptInit.key_getUnsignedLongValue e CKA_KEY_TYPE CKK_VENDOR_DEFINED) = true.
+Proof. exact AsymDecryptInit_guards. Qed.
+Print Assumptions C07_AsymDecryptInit.
+
+Theorem C07_MacSignInit : forall (e : MacSignInit.env),
+  bounded (MacSignInit.haveRead e) -> MacSignInit.zz_rest e = SENTINEL ->
+  MacSignInit.app e = SENTINEL ->
+  let key := MacSignInit.handleManager_getObject e (MacSignInit.hKey e) in
+  let kgb := MacSignInit.key_getBooleanValue e in
+  MacSignInit.pMechanism e <> 0 /\
+  init_ok (MacSignInit.this_isInitialised e) (MacSignInit.handleManager_getSession e (MacSignInit.hSession e)) (MacSignInit.session_getOpType e)
+          (MacSignInit.session_getToken e) key (MacSignInit.key_isValid e)
+          (MacSignInit.haveRead e (MacSignInit.session_getState e) (if kgb CKA_TOKEN false then 1 else 0) (if kgb CKA_PRIVATE true then 1 else 0))
+          (kgb CKA_SIGN false) (MacSignInit.isMechanismPermitted e key (MacSignInit.pMechanism e)) /\
+  mac_fits (MacSignInit.pMechanism_mechanism e) (MacSignInit.key_getUnsignedLongValue e CKA_KEY_TYPE CKK_VENDOR_DEFINED) = true.
+Proof. exact MacSignInit_guards. Qed.
+Print Assumptions C07_MacSignInit.
+
+Theorem C07_MacVerifyInit : forall (e : MacVerifyInit.env),
+  bounded (MacVerifyInit.haveRead e) -> MacVerifyInit.zz_rest e = SENTINEL ->
+  MacVerifyInit.app e = SENTINEL ->
+  let key := MacVerifyInit.handleManager_getObject e (MacVerifyInit.hKey e) in
+  let kgb := MacVerifyInit.key_getBooleanValue e in
+  MacVerifyInit.pMechanism e <> 0 /\
+  init_ok (MacVerifyInit.this_isInitialised e) (MacVerifyInit.handleManager_getSession e (MacVerifyInit.hSession e)) (MacVerifyInit.session_getOpType e)
+          (MacVerifyInit.session_getToken e) key (MacVerifyInit.key_isValid e)
+          (MacVerifyInit.haveRead e (MacVerifyInit.session_getState e) (if kgb CKA_TOKEN false then 1 else 0) (if kgb CKA_PRIVATE true then 1 else 0))
+          (kgb CKA_VERIFY false) (MacVerifyInit.isMechanismPermitted e key (MacVerifyInit.pMechanism e)) /\
+  mac_fits (MacVerifyInit.pMechanism_mechanism e) (MacVerifyInit.key_getUnsignedLongValue e CKA_KEY_TYPE CKK_VENDOR_DEFINED) = true.
+Proof. exact MacVerifyInit_guards. Qed.
+Print Assumptions C07_MacVerifyInit.
+
+Theorem C07_AsymSignInit : forall (e : AsymSignInit.env),
+  bounded (AsymSignInit.haveRead e) -> AsymSignInit.zz_rest e = SENTINEL ->
+  AsymSignInit.app e = SENTINEL ->
+  let key := AsymSignInit.handleManager_getObject e (AsymSignInit.hKey e) in
+  let kgb := AsymSignInit.key_getBooleanValue e in
+  AsymSignInit.pMechanism e <> 0 /\
+  init_ok (AsymSignInit.this_isInitialised e) (AsymSignInit.handleManager_getSession e (AsymSignInit.hSession e)) (AsymSignInit.session_getOpType e)
+          (AsymSignInit.session_getToken e) key (AsymSignInit.key_isValid e)
+          (AsymSignInit.haveRead e (AsymSignInit.session_getState e) (if kgb CKA_TOKEN false then 1 else 0) (if kgb CKA_PRIVATE true then 1 else 0))
+          (kgb CKA_SIGN false) (AsymSignInit.isMechanismPermitted e key (AsymSignInit.pMechanism e)) /\
+  sign_fits (AsymSignInit.pMechanism_mechanism e) (AsymSignInit.key_getUnsignedLongValue e CKA_CLASS CKO_VENDOR_DEFINED) (AsymSignInit.key_getUnsignedLongValue e CKA_KEY_TYPE CKK_VENDOR_DEFINED) = true.
+Proof. exact AsymSignInit_guards. Qed.
+Print Assumptions C07_AsymSignInit.
+
+Theorem C07_AsymVerifyInit : forall (e : AsymVerifyInit.env),
+  bounded (AsymVerifyInit.haveRead e) -> AsymVerifyInit.zz_rest e = SENTINEL ->
+  AsymVerifyInit.app e = SENTINEL ->
+  let key := AsymVerifyInit.handleManager_getObject e (AsymVerifyInit.hKey e) in
+  let kgb := AsymVerifyInit.key_getBooleanValue e in
+  AsymVerifyInit.pMechanism e <> 0 /\
+  init_ok (AsymVerifyInit.this_isInitialised e) (AsymVerifyInit.handleManager_getSession e (AsymVerifyInit.hSession e)) (AsymVerifyInit.session_getOpType e)
+          (AsymVerifyInit.session_getToken e) key (AsymVerifyInit.key_isValid e)
+          (AsymVerifyInit.haveRead e (AsymVerifyInit.session_getState e) (if kgb CKA_TOKEN false then 1 else 0) (if kgb CKA_PRIVATE true then 1 else 0))
+          (kgb CKA_VERIFY false) (AsymVerifyInit.isMechanismPermitted e key (AsymVerifyInit.pMechanism e)) /\
+  verify_fits (AsymVerifyInit.pMechanism_mechanism e) (AsymVerifyInit.key_getUnsignedLongValue e CKA_CLASS CKO_VENDOR_DEFINED) (AsymVerifyInit.key_getUnsignedLongValue e CKA_KEY_TYPE CKK_VENDOR_DEFINED) = true.
+Proof. exact AsymVerifyInit_guards. Qed.
+Print Assumptions C07_AsymVerifyInit.
+
+Theorem C07_WrapKey : forall (e : C_WrapKey.env),
+  bounded (C_WrapKey.haveRead e) -> bounded1 (C_WrapKey.MechParamCheckRSAPKCSOAEP e) -> C_WrapKey.zz_rest e = SENTINEL ->
+  C_WrapKey.app e = SENTINEL ->
+  let kgb := C_WrapKey.key_getBooleanValue e in let wgb := C_WrapKey.wrapKey_getBooleanValue e in
+  let wgu := C_WrapKey.wrapKey_getUnsignedLongValue e in let mech := C_WrapKey.pMechanism_mechanism e in
+  let hr := C_WrapKey.haveRead e in let sst := C_WrapKey.session_getState e in
+  kgb CKA_EXTRACTABLE false = true /\
+  (kgb CKA_WRAP_WITH_TRUSTED false = true -> wgb CKA_TRUSTED false = true) /\
+  wgb CKA_WRAP false = true /\
+  C_WrapKey.isMechanismPermitted e (C_WrapKey.handleManager_getObject e (C_WrapKey.hWrappingKey e)) (C_WrapKey.pMechanism e) = true /\
+  hr sst (if wgb CKA_TOKEN false then 1 else 0) (if wgb CKA_PRIVATE true then 1 else 0) = CKR_OK /\
+  hr sst (if kgb CKA_TOKEN false then 1 else 0) (if kgb CKA_PRIVATE true then 1 else 0) = CKR_OK /\
+  ((mech = CKM_AES_KEY_WRAP \/ mech = CKM_AES_KEY_WRAP_PAD) -> wgu CKA_CLASS CKO_VENDOR_DEFINED = CKO_SECRET_KEY /\ wgu CKA_KEY_TYPE CKK_VENDOR_DEFINED = CKK_AES) /\
+  ((mech = CKM_RSA_PKCS \/ mech = CKM_RSA_PKCS_OAEP) -> wgu CKA_CLASS CKO_VENDOR_DEFINED = CKO_PUBLIC_KEY /\ wgu CKA_KEY_TYPE CKK_VENDOR_DEFINED = CKK_RSA).
 Proof. exact WrapKey_guards. Qed.
 Print Assumptions C07_WrapKey.
 
-Theorem C07_UnwrapKey :
-  forall (oaep : N -> N) (go gs : N -> N) (hr : N -> N -> N -> N) (imp : N -> N -> bool)
-         (mech mpar mparlen sst stok ini : N) (ugb : N -> bool -> bool) (ugu : N -> N -> N) (uiv : bool)
-         (hS pM hU pW wlen pT n ph : N),
-    bounded hr -> bounded1 oaep ->
-    gen_SoftHSM__C_UnwrapKey oaep go gs hr imp mech mpar mparlen sst stok ini ugb ugu uiv SENTINEL hS pM hU pW wlen pT n ph = SENTINEL ->
-    ugb CKA_UNWRAP false = true /\ imp (go hU) pM = true /\
-    hr sst (if ugb CKA_TOKEN false then 1 else 0) (if ugb CKA_PRIVATE true then 1 else 0) = CKR_OK /\
-    ((mech = CKM_AES_KEY_WRAP \/ mech = CKM_AES_KEY_WRAP_PAD) -> ugu CKA_CLASS CKO_VENDOR_DEFINED = CKO_SECRET_KEY /\ ugu CKA_KEY_TYPE CKK_VENDOR_DEFINED = CKK_AES) /\
-    ((mech = CKM_RSA_PKCS \/ mech = CKM_RSA_PKCS_OAEP) -> ugu CKA_CLASS CKO_VENDOR_DEFINED = CKO_PRIVATE_KEY /\ ugu CKA_KEY_TYPE CKK_VENDOR_DEFINED = CKK_RSA).
+Theorem C07_UnwrapKey : forall (e : C_UnwrapKey.env),
+  bounded (C_UnwrapKey.haveRead e) -> bounded (C_UnwrapKey.haveWrite e) -> bounded1 (C_UnwrapKey.MechParamCheckRSAPKCSOAEP e) ->
+  C_UnwrapKey.hv1_rv e < SENTINEL -> C_UnwrapKey.zz_rest e = SENTINEL ->
+  C_UnwrapKey.app e = SENTINEL ->
+  let ugb := C_UnwrapKey.unwrapKey_getBooleanValue e in let ugu := C_UnwrapKey.unwrapKey_getUnsignedLongValue e in
+  let mech := C_UnwrapKey.pMechanism_mechanism e in let sst := C_UnwrapKey.session_getState e in
+  ugb CKA_UNWRAP false = true /\
+  C_UnwrapKey.isMechanismPermitted e (C_UnwrapKey.handleManager_getObject e (C_UnwrapKey.hUnwrappingKey e)) (C_UnwrapKey.pMechanism e) = true /\
+  C_UnwrapKey.haveRead e sst (if ugb CKA_TOKEN false then 1 else 0) (if ugb CKA_PRIVATE true then 1 else 0) = CKR_OK /\
+  (* the object to be created: the write check is applied to the token / private flags extracted from the template *)
+  C_UnwrapKey.haveWrite e sst (C_UnwrapKey.hv1_isOnToken e) (C_UnwrapKey.hv1_isPrivate e) = CKR_OK /\
+  ((mech = CKM_AES_KEY_WRAP \/ mech = CKM_AES_KEY_WRAP_PAD) -> ugu CKA_CLASS CKO_VENDOR_DEFINED = CKO_SECRET_KEY /\ ugu CKA_KEY_TYPE CKK_VENDOR_DEFINED = CKK_AES) /\
+  ((mech = CKM_RSA_PKCS \/ mech = CKM_RSA_PKCS_OAEP) -> ugu CKA_CLASS CKO_VENDOR_DEFINED = CKO_PRIVATE_KEY /\ ugu CKA_KEY_TYPE CKK_VENDOR_DEFINED = CKK_RSA).
 Proof. exact UnwrapKey_guards. Qed.
 Print Assumptions C07_UnwrapKey.
 
-Theorem C07_DeriveKey :
-  forall (go gs : N -> N) (hr : N -> N -> N -> N) (imp : N -> N -> bool) (kgb : N -> bool -> bool) (kiv : bool)
-         (mech sst stok ini hS pM hB pT n ph : N),
-    bounded hr ->
-    gen_SoftHSM__C_DeriveKey go gs hr imp kgb kiv mech sst stok ini SENTINEL hS pM hB pT n ph = SENTINEL ->
-    kgb CKA_DERIVE false = true /\ imp (go hB) pM = true /\
-    hr sst (if kgb CKA_TOKEN false then 1 else 0) (if kgb CKA_PRIVATE true then 1 else 0) = CKR_OK.
+Theorem C07_DeriveKey : forall (e : C_DeriveKey.env),
+  bounded (C_DeriveKey.haveRead e) -> bounded (C_DeriveKey.haveWrite e) -> C_DeriveKey.hv1_rv e < SENTINEL ->
+  (forall a b c d f g h i j, C_DeriveKey.deriveDH e a b c d f g h i j = SENTINEL) ->
+  (forall a b c d f g h i j, C_DeriveKey.deriveECDH e a b c d f g h i j = SENTINEL) ->
+  (forall a b c d f g h i j, C_DeriveKey.deriveEDDSA e a b c d f g h i j = SENTINEL) ->
+  (forall a b c d f g h i j, C_DeriveKey.deriveSymmetric e a b c d f g h i j = SENTINEL) ->
+  C_DeriveKey.app e = SENTINEL ->
+  let kgb := C_DeriveKey.key_getBooleanValue e in let sst := C_DeriveKey.session_getState e in
+  kgb CKA_DERIVE false = true /\
+  C_DeriveKey.isMechanismPermitted e (C_DeriveKey.handleManager_getObject e (C_DeriveKey.hBaseKey e)) (C_DeriveKey.pMechanism e) = true /\
+  C_DeriveKey.haveRead e sst (if kgb CKA_TOKEN false then 1 else 0) (if kgb CKA_PRIVATE true then 1 else 0) = CKR_OK /\
+  C_DeriveKey.haveWrite e sst (C_DeriveKey.hv1_isOnToken e) (C_DeriveKey.hv1_isPrivate e) = CKR_OK.
 Proof. exact DeriveKey_guards. Qed.
 Print Assumptions C07_DeriveKey.
 
-(* the configuration clause for the entry points without a key *)
-Theorem C07_DigestInit_configured :
-  forall (find : N -> N -> N -> N) (gs : N -> N) (mech sot b e ini hS pM : N),
-    gen_SoftHSM__C_DigestInit find gs mech sot b e ini SENTINEL hS pM = SENTINEL ->
-    find b e mech <> e /\ sot = SESSION_OP_NONE /\ gs hS <> 0.
-Proof. exact DigestInit_needs_enabled_mechanism. Qed.
-Theorem C07_GenerateKey_configured :
-  forall (find : N -> N -> N -> N) (gs : N -> N) (mech b e ini hS pM pT n ph : N),
-    gen_SoftHSM__C_GenerateKey find gs mech b e ini SENTINEL hS pM pT n ph = SENTINEL -> find b e mech <> e /\ gs hS <> 0.
-Proof. exact GenerateKey_needs_enabled_mechanism. Qed.
-Theorem C07_GenerateKeyPair_configured :
-  forall (find : N -> N -> N -> N) (gs : N -> N) (mech b e ini hS pM p1 n1 p2 n2 h1 h2 : N),
-    gen_SoftHSM__C_GenerateKeyPair find gs mech b e ini SENTINEL hS pM p1 n1 p2 n2 h1 h2 = SENTINEL -> find b e mech <> e /\ gs hS <> 0.
-Proof. exact GenerateKeyPair_needs_enabled_mechanism. Qed.
-Print Assumptions C07_DigestInit_configured.
-Print Assumptions C07_GenerateKey_configured.
-Print Assumptions C07_GenerateKeyPair_configured.
+Theorem C07_DigestInit : forall (e : C_DigestInit.env),
+  C_DigestInit.zz_rest e = SENTINEL -> C_DigestInit.app e = SENTINEL ->
+  C_DigestInit.find e (C_DigestInit.supportedMechanisms_begin e) (C_DigestInit.supportedMechanisms_end e) (C_DigestInit.pMechanism_mechanism e)
+    <> C_DigestInit.supportedMechanisms_end e /\
+  C_DigestInit.session_getOpType e = SESSION_OP_NONE /\ C_DigestInit.handleManager_getSession e (C_DigestInit.hSession e) <> 0.
+Proof. exact DigestInit_guards. Qed.
+Print Assumptions C07_DigestInit.
+
+Theorem C07_GenerateKey : forall (e : C_GenerateKey.env),
+  bounded (C_GenerateKey.haveWrite e) ->
+  (forall a b c d f g, C_GenerateKey.generateAES e a b c d f g = SENTINEL) -> (forall a b c d f g, C_GenerateKey.generateDES e a b c d f g = SENTINEL) ->
+  (forall a b c d f g, C_GenerateKey.generateDES2 e a b c d f g = SENTINEL) -> (forall a b c d f g, C_GenerateKey.generateDES3 e a b c d f g = SENTINEL) ->
+  (forall a b c d f g, C_GenerateKey.generateDHParameters e a b c d f g = SENTINEL) -> (forall a b c d f g, C_GenerateKey.generateDSAParameters e a b c d f g = SENTINEL) ->
+  (forall a b c d f g, C_GenerateKey.generateGeneric e a b c d f g = SENTINEL) ->
+  C_GenerateKey.app e = SENTINEL ->
+  C_GenerateKey.find e (C_GenerateKey.supportedMechanisms_begin e) (C_GenerateKey.supportedMechanisms_end e) (C_GenerateKey.pMechanism_mechanism e) <> C_GenerateKey.supportedMechanisms_end e /\
+  C_GenerateKey.handleManager_getSession e (C_GenerateKey.hSession e) <> 0 /\
+  C_GenerateKey.haveWrite e (C_GenerateKey.session_getState e) (C_GenerateKey.hv1_isOnToken e) (C_GenerateKey.hv1_isPrivate e) = CKR_OK.
+Proof. exact GenerateKey_guards. Qed.
+Print Assumptions C07_GenerateKey.
+
+Theorem C07_GenerateKeyPair : forall (e : C_GenerateKeyPair.env),
+  (forall a b c, C_GenerateKeyPair.haveWrite e a b c < SENTINEL) ->
+  (forall a b c d f g h i j k l, C_GenerateKeyPair.generateDH e a b c d f g h i j k l = SENTINEL) ->
+  (forall a b c d f g h i j k l, C_GenerateKeyPair.generateDSA e a b c d f g h i j k l = SENTINEL) ->
+  (forall a b c d f g h i j k l, C_GenerateKeyPair.generateEC e a b c d f g h i j k l = SENTINEL) ->
+  (forall a b c d f g h i j k l, C_GenerateKeyPair.generateED e a b c d f g h i j k l = SENTINEL) ->
+  (forall a b c d f g h i j k l, C_GenerateKeyPair.generateGOST e a b c d f g h i j k l = SENTINEL) ->
+  (forall a b c d f g h i j k l, C_GenerateKeyPair.generateRSA e a b c d f g h i j k l = SENTINEL) ->
+  C_GenerateKeyPair.app e = SENTINEL ->
+  C_GenerateKeyPair.find e (C_GenerateKeyPair.supportedMechanisms_begin e) (C_GenerateKeyPair.supportedMechanisms_end e) (C_GenerateKeyPair.pMechanism_mechanism e)
+    <> C_GenerateKeyPair.supportedMechanisms_end e /\
+  (* one write check for both halves: on the token if either is, private if either is *)
+  C_GenerateKeyPair.haveWrite e (C_GenerateKeyPair.session_getState e)
+    (negb (C_GenerateKeyPair.hv1_ispublicKeyToken e =? 0) || negb (C_GenerateKeyPair.hv2_isprivateKeyToken e =? 0))
+    (negb (C_GenerateKeyPair.hv1_ispublicKeyPrivate e =? 0) || negb (C_GenerateKeyPair.hv2_isprivateKeyPrivate e =? 0)) = CKR_OK.
+Proof. exact GenerateKeyPair_guards. Qed.
+Print Assumptions C07_GenerateKeyPair.
